@@ -136,7 +136,9 @@ class Host:
         # relative path: the daemon prints the file name in parse errors and the
         # history hash must not depend on the scratch directory's name
         rel = os.path.relpath(conf_path, cwd or scratch)
-        args = [SIMHOST, rel] + ([extra_arg] if extra_arg else [])
+        # VERIF_HOST_PREFIX="valgrind -q --error-exitcode=77" with a plain build (make build SAN= B=<dir>,
+        # VERIF_BUILD=<dir>) runs the same histories under memcheck: uninitialised reads, which ASan does not see
+        args = os.environ.get("VERIF_HOST_PREFIX", "").split() + [SIMHOST, rel] + ([extra_arg] if extra_arg else [])
         self.p = subprocess.Popen(args, preexec_fn=pre, close_fds=False, stdin=subprocess.DEVNULL,
                                   stdout=subprocess.DEVNULL, stderr=self.errf, env=e,
                                   cwd=cwd or scratch)
